@@ -87,6 +87,29 @@ def run(ctx):
         rules = [dict(kind='data', nth=1, upto=first, act='drop'), dict(kind='data', nth=2 * first + 1, act='drop')]
         s['a2b'] = dict(rules=rules)
         scs.append(s)
+    # the peer stays silent: every copy of the flight and the first k timeout retransmissions are lost
+    # (back-off: the interval at least doubles; exactly one segment, the earliest unacknowledged one, per timeout)
+    for k in range(ctx.pick(4, 16)):
+        i += 1
+        n = [1, 3, 6, 10][k % 4]
+        lost_retx = [3, 2, 4, 3][k % 4] if k < 8 else rng.choice([2, 3, 4])
+        s = flight_scenario(rng, i, n, rng.choice([200, 576]), [], k % 2 == 1, ['', 'reno', 'cubic'][k % 3] if ctx.thorough() else '')
+        s['a2b'] = dict(rules=[dict(kind='data', nth=1, upto=n + lost_retx, act='drop')])
+        s['tag'] = 'silent-backoff-%d-n%d-lost%d' % (k, n, lost_retx)
+        scs.append(s)
+    # paced writes: single segments written less than one RTO apart, each acknowledged before the next; one of the late
+    # ones is lost with too few followers for a fast retransmit (the retransmission timer has been stopped and re-armed
+    # several times by then: the 200 ms lower bound counts from the LAST transmission of the segment, not from an earlier arming)
+    for k in range(ctx.pick(6, 24)):
+        i += 1
+        n = rng.choice([3, 4, 5, 6])
+        gap = [60, 30, 90, 140, 110, 45][k % 6] * 1000
+        mss = 300 - 52
+        lost = n - (k % 2)                       # the last or the last but one
+        s = dict(v=4, mtu=300, sack=(k % 3 == 0), cc='', deadline_ms=45000, seed=i + 1, flags={}, sync=True,
+                 a=dict(writes=[mss] * n, write_gap_us=gap, shutdown=True), b=dict(writes=[], shutdown=True),
+                 tag='paced-%d-n%d-gap%dms-lost%d' % (k, n, gap // 1000, lost), a2b=dict(rules=[dict(kind='data', nth=lost, act='drop')]))
+        scs.append(s)
     # emulated RTT
     for k in range(ctx.pick(4, 30)):
         i += 1
@@ -104,6 +127,20 @@ def run(ctx):
     ctx.extra['retransmissions_observed'] = nret
     if nret == 0:
         raise vlib.Inconclusive('vacuity: no retransmission was observed')
+    # precondition of the "timeout, all acknowledged, first new segment lost" family: the third duplicate ACK for the first
+    # new segment must really have arrived in at least one of them, otherwise the fast-retransmit mandate was never exercised
+    def max_dupacks_after_gap(s):
+        best, last, run = 0, None, 0
+        for e in s:
+            if e['ev'] == 'arrive' and e.get('to') == 'a' and e.get('len', 0) == 0 and 'A' in e.get('flags', '') and e.get('t', 0) > 3400000:
+                run = run + 1 if e.get('ack') == last else 0
+                last = e.get('ack')
+                best = max(best, run)
+        return best
+    fam = [max_dupacks_after_gap(s) for s, sc in zip(segs, scs) if sc.get('tag', '').startswith('rto-then-firstnew-lost')]
+    ctx.extra['rto_then_firstnew_lost'] = dict(scenarios=len(fam), with_three_dupacks=sum(1 for x in fam if x >= 3))
+    if fam and not any(x >= 3 for x in fam):
+        raise vlib.Inconclusive('vacuity: no "first new segment after a timeout lost" scenario produced three duplicate ACKs')
     ctx.sample(dict(kind='scenario', scenario=scs[0]))
     ctx.sample(dict(kind='trace', events=tcplib.sample_trace(segs[0], 12)))
     # ---- the replay script of known finding F7 (duplicate ACKs arriving ~150 ms before the initial 1 s timer fires);
